@@ -479,7 +479,8 @@ def run(tier: str) -> int:
         raise tlc.MachineryError(f"repaired protocol violates {res['violated']}:\n{res.get('out', '')[-2000:]}")
     chk.add_mc(res, "repaired protocol: all invariants, no deadlock, termination under weak fairness; 1-3 sessions x 0-3 batches")
     for cfg, what in (("MC_C10_pinned.cfg", "pinned protocol"), ("MC_C10_m_flag.cfg", "agent loop exits on the racy flag"),
-                      ("MC_C10_m_learn.cfg", "learn() on the end marker"), ("MC_C10_m_drain.cfg", "action queue not drained")):
+                      ("MC_C10_m_learn.cfg", "learn() on the end marker"), ("MC_C10_m_drain.cfg", "action queue not drained"),
+                      ("MC_C10_m_reward.cfg", "the reward computation raises for some outcome (agent thread dies silently)")):
         r = tlc.model_check("MC_RLExchange", cfg, workers=4, timeout=600)
         if r["violated"] is None:
             raise tlc.MachineryError(f"vacuity: {cfg} ({what}) not refuted")
@@ -531,8 +532,14 @@ def run(tier: str) -> int:
                 a["exact"] = b2["exact"] = False
                 runs += [a, b2]
                 n_cal += 1
+    # a reference loss of exactly zero followed by a lower (negative) loss: the relative-improvement reward is undefined there
+    with quiet():
+        for plan, ls in (([3], [4, 0, -4, -8]), ([2, 2], [8, 0, 0, -2, -2]), ([1, 2], [2, 0, -1, -1]), ([4], [4, 2, 0, 0, -1])):
+            r = run_controlled(plan, ls, script, [], agent_kind="scripted", seed=rng.randrange(10**6), rng=rng)
+            r["exact"] = False
+            runs.append(r)
     chk.evaluations = len(runs)
-    chk.extra.update({"calibrate_level_pairs": n_cal, "graph_states": len(g.nodes), "graph_edges": len(g.edges), "edge_cover_paths": n_cover,
+    chk.extra.update({"calibrate_level_pairs": n_cal, "zero_crossing_loss_sequences": 4, "graph_states": len(g.nodes), "graph_edges": len(g.edges), "edge_cover_paths": n_cover,
                       "random_walks": n_walks, "schedules_replayed_exactly": exact_n, "schedules_diverged": len(runs) - exact_n,
                       "graph_edges_visited_by_real_executions": len(covered),
                       "graph_states_visited_by_real_executions": len({s for s, _, _ in covered} | {d for _, d, _ in covered})})
@@ -570,6 +577,10 @@ def _validate(chk: Check, runs, rule: str) -> int:
         ev = r["ev"][why["at"] - 1] if why["at"] <= len(r["ev"]) else {"e": "end"}
         w = why["why"].strip('"')
         key = f"{'deadlock' if ev.get('e') == 'deadlock' else w.split(':')[0]}"
+        if ev.get("e") == "agent-crash":
+            crash = [e for e in r["ev"] if e["e"] == "agent-crash"][0]
+            key = "agent-thread-died:" + crash.get("what", "?").split("(")[0]
+            w = f"the agent thread died ({crash.get('what', '?')[:80]}) and the calibration thread then waits forever for its next choice"
         chk.violation(key, f"{w} at event {why['at']} ({ev.get('e')}) of a controlled execution, sessions {r['plan']}",
                       {"plan": r["plan"], "losses": r["losses"], "script": r["script"], "agent": r["agent"],
                        "grants": r["grants"], "events": r["ev"], "tlc": why, "via": r.get("via", False), "seed": r.get("seed", 0),
